@@ -35,7 +35,20 @@ class RoundSolidFinder(FinderBase):
         vertices: Set[Vertex] = set()
 
         for face in faces:
-            vertices.update(self._find_from_points(face.points))
+            # the vertices of the blocks that were assembled from this face
+            # (they may have been moved since - by an optimizer, for instance - so they can't be looked up by position)
+            found = False
+
+            for i, operation in enumerate(self.mesh.assembled_operations):
+                if operation.bottom_face is face:
+                    vertices.update(self.mesh.blocks[i].vertices[:4])
+                    found = True
+                elif operation.top_face is face:
+                    vertices.update(self.mesh.blocks[i].vertices[4:])
+                    found = True
+
+            if not found:
+                vertices.update(self._find_from_points(face.points))
 
         return vertices
 
